@@ -492,6 +492,19 @@ pub fn cache_program(rng: &mut Rng) -> (u64, Vec<CacheOp>) {
         }
         if rng.chance(1, 3) { hashes.push(*h ^ 0xFFFF_FFFF_0000_0000); }
         if rng.chance(1, 3) { hashes.push((*h).swap_bytes()); }
+        // differences with repeated structure (same pattern in both halves / all four quarters /
+        // all bytes), kept above the slot bits; rotations
+        let keep = if bits >= 32 { 0 } else { !0u64 << bits };
+        let d32 = (rng.next_u64() & 0xFFFF_FFFF) | (1 << (rng.below(32)));
+        hashes.push(*h ^ ((d32 | (d32 << 32)) & keep));
+        let d16 = (rng.next_u64() & 0xFFFF) | (1 << rng.below(16));
+        if rng.chance(1, 2) { hashes.push(*h ^ ((d16 | (d16 << 16) | (d16 << 32) | (d16 << 48)) & keep)); }
+        let d8 = (rng.next_u64() & 0xFF) | 1;
+        if rng.chance(1, 2) { hashes.push(*h ^ ((d8 * 0x0101_0101_0101_0101) & keep)); }
+        if rng.chance(1, 3) { hashes.push((*h).rotate_left(32)); }
+        if rng.chance(1, 3) { hashes.push((*h).rotate_left(16)); }
+        let b = rng.below(32);
+        if rng.chance(1, 2) { hashes.push(*h ^ (((1u64 << b) | (1u64 << (b + 32))) & keep)); }
     }
     let val = |rng: &mut Rng| -> u32 {
         match rng.below(5) {
